@@ -1,6 +1,7 @@
 import SpVerif.J
 import SpVerif.Model.Srv1
 import SpVerif.Ops.PusTm
+import SpVerif.Ops.PusTc
 namespace SpVerif.Ops.Srv1
 open SpVerif.J SpVerif.SpacePacket SpVerif.PusTm SpVerif.Srv1 Lean
 
@@ -12,7 +13,15 @@ def pfeJ (f : Pfe) : Json := obj [("pfc", jn f.pfc), ("val", jn f.val)]
 def fnJ (f : FailureNotice) : Json := obj [("code", pfeJ f.code), ("data", jh f.data)]
 def vpJ (p : VParams) : Json :=
   obj [("req_id", reqJ p.reqId), ("step_id", jopt pfeJ p.stepId), ("failure", jopt fnJ p.failure)]
-def s1J (s : S1Tm) : Json := obj [("tm", Ops.PusTm.tmJ s.tm), ("params", vpJ s.params)]
+/-- the report as seen through the public accessors (`tc_req_id`, `step_id`, `failure_notice`,
+    `error_code`, `is_step_reply`, `has_failure_notice`) -/
+def s1J (s : S1Tm) : Json :=
+  obj [("tm", Ops.PusTm.tmJ s.tm),
+       ("params", obj [("req_id", reqJ s.tcReqId), ("step_id", jopt pfeJ s.stepId), ("failure", jopt fnJ s.failureNotice)]),
+       ("error_code", match s.errorCode with
+          | .ok c => jopt pfeJ c
+          | .error e => js e.name),
+       ("is_step_reply", jb s.isStepReply), ("has_failure_notice", jb s.hasFailureNotice)]
 
 def getReq (j : Json) : R ReqId := do
   pure ⟨← getNat j "version", ⟨← getNat j "ptype", ← getNat j "shf", ← getNat j "apid"⟩,
@@ -43,7 +52,117 @@ def getVp (j : Json) : R (Py VParams) := do
       | some f => do let f ← f; pure (some f)
     pure ⟨req, s, f⟩)
 
+def getPfe (j : Json) : R (Py Pfe) := do pure (Pfe.new (← getNat j "pfc") (← getNat j "val"))
+
+def getFn (j : Json) : R (Py FailureNotice) := do
+  let code ← getPfe (← field j "code")
+  let data ← getHex j "data"
+  pure (do let c ← code; pure ⟨c, data⟩)
+
+def getNatOpt (j : Json) (k : String) : R (Option Nat) := do
+  match ← getIntOpt j k with
+  | none => pure none
+  | some i => if i < 0 then .error s!"field {k}: negative" else pure (some i.toNat)
+
+/-- constructor arguments of `Service1Tm`; "params" may be null -/
+def getS1 (j : Json) : R (Py S1Tm) := do
+  let pj ← field j "params"
+  let vp : Option (Py VParams) ← if pj.isNull then pure none else do pure (some (← getVp pj))
+  let apid ← getInt j "apid"
+  let sub ← getInt j "subservice"
+  let ts ← getHex j "timestamp"
+  let count ← getInt j "count"
+  let ver ← getNat j "version"
+  let tref ← getNat j "time_ref"
+  let dst ← getNat j "dest_id"
+  pure (do
+    let p ← match vp with
+      | none => pure none
+      | some p => do let p ← p; pure (some p)
+    S1Tm.new apid sub ts p count ver tref dst)
+
+/-- the harness op decodes the packed report back with the widths of its own fields (1 for absent
+    ones, as `UnpackParams` defaults): mirror that, so that both sides refuse the same inputs -/
+def decodeBack (s : S1Tm) (raw : Bytes) : Py Unit := do
+  let sb ← match s.params.stepId with
+    | none => pure 1
+    | some f => f.len
+  let eb ← match s.params.failure with
+    | none => pure 1
+    | some f => f.code.len
+  let _ ← S1Tm.unpack raw s.tm.sec.timestamp.length sb eb
+  pure ()
+
+def packedJ (r : Bytes × S1Tm) : Json := obj [("raw", jh r.1), ("s1", s1J r.2), ("src", jh r.2.tm.sourceData)]
+
 def ops : List (String × Handler) := [
+  ("pfe_with_size", fun j => do pure (res pfeJ (Pfe.withByteSize (← getNat j "n") (← getNat j "val")))),
+  ("pfe_eq", fun j => do
+      let a ← getPfe (← field j "a")
+      let b ← getPfe (← field j "b")
+      pure (res (fun (e : Bool) => obj [("eq", jb e)]) (do let a ← a; let b ← b; pure (a.beq b)))),
+  ("s1_fn_pack", fun j => do
+      let f ← getFn j
+      pure (res (fun (r : Bytes × Nat) => obj [("raw", jh r.1), ("len", jn r.2)])
+        (do let f ← f; let b ← f.pack; let l ← f.len; pure (b, l)))),
+  ("s1_fn_unpack", fun j => do
+      pure (res fnJ (FailureNotice.unpack (← getHex j "raw") (← getNat j "err_bytes") (← getNatOpt j "data_bytes")))),
+  ("s1_fn_eq", fun j => do
+      let a ← getFn (← field j "a")
+      let b ← getFn (← field j "b")
+      pure (res (fun (e : Bool) => obj [("eq", jb e)]) (do let a ← a; let b ← b; pure (a.beq b)))),
+  ("s1_vp_pack", fun j => do
+      let vp ← getVp (← field j "params")
+      pure (res (fun (r : Bytes × Nat) => obj [("raw", jh r.1), ("len", jn r.2)])
+        (do let p ← vp; let b ← p.pack; let l ← p.len; pure (b, l)))),
+  ("s1_vp_verify", fun j => do
+      let vp ← getVp (← field j "params")
+      let sub ← getNat j "subservice"
+      pure (res (fun (_ : Unit) => obj []) (do let p ← vp; p.verify sub))),
+  ("s1_new", fun j => do
+      let s ← getS1 j
+      pure (res packedJ (do let s ← s; let raw ← s.pack; pure (raw, s)))),
+  ("s1_eq", fun j => do
+      let a ← getS1 (← field j "a")
+      let b ← getS1 (← field j "b")
+      pure (res (fun (e : Bool) => obj [("eq", jb e)]) (do let a ← a; let b ← b; pure (a.beq b)))),
+  ("s1_create", fun j => do
+      let tcj ← field j "tc"
+      let tc ← Ops.PusTc.getTc tcj
+      let tcVer ← getNat tcj "version"
+      let sub ← getNat j "subservice"
+      let apid ← getInt j "apid"
+      let ts ← getHex j "timestamp"
+      let step ← getPfeOpt j "step_id"
+      let fv ← field j "failure"
+      let fail : Option (Py FailureNotice) ← if fv.isNull then pure none else do pure (some (← getFn fv))
+      pure (res packedJ (do
+        let tc ← tc
+        let s ← match step with
+          | none => pure none
+          | some s => do let s ← s; pure (some s)
+        let f ← match fail with
+          | none => pure none
+          | some f => do let f ← f; pure (some f)
+        -- the helper selected by the subservice takes only the arguments of its signature
+        let (s, f) ← match sub with
+          | 1 | 3 | 7 => pure (none, none)
+          | 2 | 4 | 8 => pure (none, f)
+          | 5 => pure (s, none)
+          | 6 => pure (s, f)
+          | _ => throw Err.value
+        let r ← create sub apid { tc.sph with version := tcVer } s f ts
+        let raw ← r.pack
+        decodeBack r raw
+        pure (raw, r)))),
+  ("s1_from_tm", fun j => do
+      let raw ← getHex j "raw"
+      let tsLen ← getNat j "ts_len"
+      let sb ← getNat j "step_bytes"
+      let eb ← getNat j "err_bytes"
+      pure (res s1J (do
+        let tm ← Tm.unpack raw tsLen
+        S1Tm.fromTm tm sb eb))),
   ("req_pack", fun j => do
       let r ← getReq j
       pure (res (fun b => obj [("raw", jh b), ("u32", jn r.asU32)]) r.pack)),
@@ -67,10 +186,11 @@ def ops : List (String × Handler) := [
       let ver ← getNat j "version"
       let tref ← getNat j "time_ref"
       let dst ← getNat j "dest_id"
-      pure (res (fun (r : Bytes × S1Tm) => obj [("raw", jh r.1), ("s1", s1J r.2), ("src", jh r.2.tm.sourceData)])
+      pure (res packedJ
         (do let p ← vp
             let s ← S1Tm.new apid sub ts (some p) count ver tref dst
             let raw ← s.pack
+            decodeBack s raw
             pure (raw, s)))),
   ("s1_unpack", fun j => do
       pure (res s1J (S1Tm.unpack (← getHex j "raw") (← getNat j "ts_len") (← getNat j "step_bytes") (← getNat j "err_bytes"))))
